@@ -1,6 +1,7 @@
 package gen
 
 import (
+	"go/token"
 	"strings"
 	"unicode"
 
@@ -72,8 +73,14 @@ func goifyArgument(name string) string {
 	if res == "errors" {
 		return "errs"
 	}
+	// neither Go keywords nor identifiers of the generated method itself
+	if token.IsKeyword(res) || dry.SliceContains(methodBodyIdentifiers, res) {
+		return res + "_"
+	}
 	return res
 }
+
+var methodBodyIdentifiers = []string{"c", "err", "ok", "resp", "responseData", "reflect"}
 
 func (g *Generator) typeIdFromSchemaType(t string) *jen.Statement {
 	item := &jen.Statement{}
